@@ -254,8 +254,17 @@ class Inliner:
                     q = prefix + ch.name
                     if ref is not None and q not in ref:
                         cands.append((q, ch, cls))
+                    # closures defined inside a function (`def _reject(reason): ...`) are helpers of that function
+                    nested(ch, q + '.')
                 elif isinstance(ch, ast.ClassDef):
                     scan(ch, prefix + ch.name + '.', ch.name)
+
+        def nested(fn, prefix):
+            for ch in ast.walk(fn):
+                if isinstance(ch, ast.FunctionDef) and ch is not fn:
+                    q = prefix + ch.name
+                    if ref is not None and q not in ref and not any(c_[1] is ch for c_ in cands):
+                        cands.append((q, ch, None))
         scan(tree, '', None)
         for q, f, cls in cands:
             try:
